@@ -8,6 +8,7 @@
 #include <cstddef>
 #include <exception>
 #include <string>
+#include <type_traits>
 #include <unordered_map>
 
 namespace life {
@@ -77,24 +78,56 @@ struct registry {
 
 inline registry& reg() { static registry r; return r; }
 
-struct elem {
+// NX: the move assignment is noexcept (and therefore not a fallible event) while the copy assignment may throw
+// (the split std::string / std::vector have): a function that copy-assigns must not claim noexcept from the move trait.
+template<bool NX>
+struct elem_t {
 	int v;
-	elem() : v(0) { reg().construct(this); ++reg().defaults; }
-	elem(int x) : v(x) { reg().tick('e'); reg().construct(this); ++reg().conversions; }  // NOLINT: implicit on purpose (convertible element type)
-	elem(elem const& o) : v(0) { reg().tick('e'); reg().read(&o); v = o.v; reg().construct(this); ++reg().copies; }
-	elem(elem&& o) : v(0) { reg().tick('e'); reg().read(&o); v = o.v; reg().construct(this); reg().mark_moved(&o); ++reg().moves; }  // NOLINT: may throw on purpose
-	auto operator=(elem const& o) -> elem& {
+	elem_t() : v(0) { reg().construct(this); ++reg().defaults; }
+	elem_t(int x) : v(x) { reg().tick('e'); reg().construct(this); ++reg().conversions; }  // NOLINT: implicit on purpose (convertible element type)
+	elem_t(elem_t const& o) : v(0) { reg().tick('e'); reg().read(&o); v = o.v; reg().construct(this); ++reg().copies; }
+	elem_t(elem_t&& o) : v(0) { reg().tick('e'); reg().read(&o); v = o.v; reg().construct(this); reg().mark_moved(&o); ++reg().moves; }  // NOLINT: may throw on purpose
+	auto operator=(elem_t const& o) -> elem_t& {
 		reg().tick('e'); reg().read(&o); reg().assign(this); v = o.v; ++reg().copies; return *this;
 	}
-	auto operator=(elem&& o) -> elem& {  // NOLINT: may throw on purpose
-		reg().tick('e'); reg().read(&o); reg().assign(this); v = o.v;
+	auto operator=(elem_t&& o) noexcept(NX) -> elem_t& {  // NOLINT: may throw on purpose when !NX
+		if constexpr(!NX) { reg().tick('e'); }
+		reg().read(&o); reg().assign(this); v = o.v;
 		if(&o != this) { reg().mark_moved(&o); }
 		++reg().moves; return *this;
 	}
-	auto operator=(int x) -> elem& { reg().tick('e'); reg().assign(this); v = x; ++reg().conversions; return *this; }
-	~elem() { reg().destroy(this); }
-	friend bool operator==(elem const& a, elem const& b) { return a.v == b.v; }
-	friend bool operator!=(elem const& a, elem const& b) { return a.v != b.v; }
+	auto operator=(int x) -> elem_t& { reg().tick('e'); reg().assign(this); v = x; ++reg().conversions; return *this; }
+	~elem_t() { reg().destroy(this); }
+	friend bool operator==(elem_t const& a, elem_t const& b) { return a.v == b.v; }
+	friend bool operator!=(elem_t const& a, elem_t const& b) { return a.v != b.v; }
 };
+using elem    = elem_t<false>;
+using elem_nx = elem_t<true>;
+
+// trivially destructible and trivially copyable, but NOT trivially default constructible: value-initialisation gives 0,
+// skipped construction leaves the allocator's 0xCD paint
+struct tagged {
+	int v = 0;
+	tagged() = default;
+	tagged(int x) : v(x) {}  // NOLINT: implicit on purpose
+	friend bool operator==(tagged const& a, tagged const& b) { return a.v == b.v; }
+	friend bool operator!=(tagged const& a, tagged const& b) { return a.v != b.v; }
+};
+
+// trivial default constructor and destructor, user-provided copy operations: is_trivially_default_constructible but
+// not is_trivial; default construction must not write (the paint stays)
+struct cell {
+	int v;
+	cell() = default;
+	cell(int x) : v(x) {}  // NOLINT: implicit on purpose
+	cell(cell const& o) noexcept : v(o.v) {}
+	auto operator=(cell const& o) noexcept -> cell& { v = o.v; return *this; }
+	friend bool operator==(cell const& a, cell const& b) { return a.v == b.v; }
+	friend bool operator!=(cell const& a, cell const& b) { return a.v != b.v; }
+};
+
+static_assert(!std::is_nothrow_move_assignable_v<elem> && std::is_nothrow_move_assignable_v<elem_nx> && !std::is_nothrow_copy_assignable_v<elem_nx>);
+static_assert(!std::is_trivially_default_constructible_v<tagged> && std::is_trivially_destructible_v<tagged> && std::is_trivially_copyable_v<tagged>);
+static_assert(std::is_trivially_default_constructible_v<cell> && std::is_trivially_destructible_v<cell> && !std::is_trivial_v<cell>);
 
 }  // namespace life
